@@ -16,6 +16,7 @@ the full projected abstract state, for validation against XpmScheduler.tla.
 import asyncio
 import asyncio.tasks
 import json
+import threading
 import os
 import random
 import shutil
@@ -283,7 +284,8 @@ class Engine:
         self.waiter = "none"
         self.waiter_task = None
         self.main_result = {}
-        self.fault = None  # (point name, ordinal) at which the scheduler dies
+        self.fault = tuple(plan["fault"]) if plan.get("fault") else None  # (point name, ordinal) at which the scheduler dies
+        self.fault_job = "-"
         self.fault_counts = {}
         self.dead = False
         self.steps = 0
@@ -385,10 +387,32 @@ class Engine:
 
     # ------------------------------------------------------------ faults
     def fault_point(self, name):
+        """SIGKILL of the scheduler *inside* a block of the coroutine: the step runs in a helper thread which is
+        parked for ever here (nothing unwinds, no finally / __exit__ runs), the engine carries on without it"""
         n = self.fault_counts.get(name, 0)
         self.fault_counts[name] = n + 1
-        if self.fault and self.fault[0] == name and self.fault[1] == n:
-            raise SchedulerDeath(name)
+        if self.fault and self.fault[0] == name and self.fault[1] == n and self.inc == 0:
+            t = asyncio.tasks.current_task(self.loop)
+            self.fault_job = self.key_of(self.job_of_task(t)) if t is not None else "-"
+            self._died.set()
+            threading.Event().wait()  # parked for ever (daemon thread)
+
+    def step_with_faults(self):
+        """One loop step in a helper thread; returns False if the scheduler died inside it"""
+        self._died = threading.Event()
+        done = threading.Event()
+
+        def target():
+            try:
+                self.loop.step()
+            finally:
+                done.set()
+
+        th = threading.Thread(target=target, daemon=True)
+        th.start()
+        while not done.is_set() and not self._died.is_set():
+            done.wait(0.001)
+        return not self._died.is_set()
 
     # ------------------------------------------------------------ events
     def enabled(self, main):
@@ -435,12 +459,13 @@ class Engine:
         if o[0] == "step":
             h = self.loop.peek()
             lab = self.classify(h, running=True)
-            try:
+            if self.fault and self.inc == 0:
+                if not self.step_with_faults():
+                    self.kill_scheduler()
+                    self.record("Die", {"at": self.fault[0], "j": self.fault_job})
+                    return
+            else:
                 self.loop.step()
-            except SchedulerDeath as e:
-                self.kill_scheduler()
-                self.record("Die", {"at": str(e)})
-                return
             self.after_step(lab)
         elif o[0] == "thread":
             th = self.threads.pop(o[1])
@@ -555,11 +580,15 @@ class Engine:
     def hold_main(self):
         """Fault sweep: the `kill` of the main program is delayed until `killat` events were recorded"""
         killat = self.plan.get("killat")
-        if killat is None:
+        if killat is None and not self.fault:
             return False
         prog = self.plan["program"]
         nxt = prog[self.mainpos + 1] if self.mainpos + 1 < len(prog) else None
-        return nxt is not None and nxt[0] == "kill" and len(self.trace) < killat
+        if nxt is None or nxt[0] != "kill":
+            return False
+        if self.fault:  # the planned death is inside a block: the program's own kill waits for it
+            return True
+        return len(self.trace) < killat
 
     def drain(self):
         """After the main program: let the world finish (processes of a dead scheduler)"""
@@ -711,7 +740,7 @@ class Engine:
                         self.op_waitjob(op[1])
                     elif op[0] == "kill":
                         self.kill_scheduler()
-                        self.record("Die", {"at": "main"})
+                        self.record("Die", {"at": "main", "j": "-"})
                     elif op[0] == "rmdone":
                         # the user removes a success marker between two runs
                         if self.phase == "run":
@@ -730,7 +759,7 @@ class Engine:
                 except SchedulerDeath:
                     if not self.dead:
                         self.kill_scheduler()
-                        self.record("Die", {"at": "fault"})
+                        self.record("Die", {"at": "fault", "j": "-"})
             self.drain()
             self.record("End", {})
         except QuiescentHang:
